@@ -70,7 +70,7 @@ fn check_idempotent(text: &str, cfg: &Cfg, cx: &mut Cx) {
 fn run(r: &mut Run) -> Result<(), MachineryError> {
     let t = r.tier;
     let alpha = [L, SP, HY, W, NL, CM, TAB, NB, ZW, OP, CL, CSI, CR];
-    let n = t.pick(4, 5);
+    let n = t.pick(4, 6);
     let g = Gamma { seps: seps(), algs: algs_default(), spls: vec![Spl::None, Spl::Hyphen], bws: vec![true, false], indents: vec![("", "")], crlf: vec![false, true] };
     let bases = g.bases();
     let space = Space { name: "C14/texts".into(), menu: menu(&alpha), max_len: n, desc: format!("texts of length <= {}; {}; widths 0..=display width+2, MAX; CRLF configurations on the CRLF form and on the bare-LF form of each text with a line break", n, g.describe()) };
